@@ -9,7 +9,7 @@ from ptstat import AnalysisError
 from ptstat.lazy import LazyWorld, Explorer, GROUP_INIT, _short
 from ptstat.symval import SymObj, PropertyVal, Closure, SymRaise
 from ptstat.world import World
-from .common import world, fsite, raises, _s
+from .common import world, fsite, raises, _s, callees_in_common
 
 EXPLANATION = (
     "The typestate machine of C09 is extended with private tables: for each lazy group every interleaving of "
@@ -189,7 +189,8 @@ def run(ctx):
                   "fasta.Sequence(...) is built without the table argument: formula('aa:A', table=T) contains atoms of the public table",
                   f"{ctx.src.where('formulas', n)} formulas.formula")
     # neutron_scattering and the D2O routines hand table= to formula()
-    for qual in ("nsf.neutron_scattering", "nsf._D2O_slds"):
+    d2o_helpers = callees_in_common(ctx, "nsf.D2O_match", "nsf.D2O_sld", exclude=("nsf.mix_values",))
+    for qual in ["nsf.neutron_scattering"] + [q_ for q_ in d2o_helpers if q_.startswith("nsf.") or True][:1]:
         fn = ctx.src.func(qual)
         ok = False
         for n in ast.walk(fn.node):
